@@ -91,7 +91,7 @@ def census(chk):
             if target in (VA + '::new_unsafe', PA + '::new_unsafe'):
                 n_calls += 1
                 to_audit.setdefault(f['name'], f)
-    chk.floor('in-crate new_unsafe call sites', n_calls, 4)
+    chk.floor('in-crate new_unsafe call sites', n_calls, 1)
     for name, f in sorted(to_audit.items()):
         chk.guard('who-may-construct', name, lambda f=f: audit(chk, f))
 
@@ -106,7 +106,20 @@ def audit(chk, f):
     short = name.replace('structures::paging::', '').replace('instructions::segmentation::', '')
     subs = [{}]
     if f['generics']:
-        subs = [{g: size_ty(sz) for g in f['generics']} for sz in ('Size4KiB', 'Size2MiB', 'Size1GiB')]
+        # the instantiations the crate itself uses (`step::<Forward>`, `step::<Backward>`); page sizes for what is left generic
+        from ..interp import gargs_for
+        insts = []
+        for g_ in chk.facts['fns']:
+            for bi, c, target, loc in callees(g_):
+                if target != name or not (c.get('res') or {}).get('gargs'):
+                    continue
+                ga = gargs_for(f, c['res']['gargs'])
+                if len(ga) == len(f['generics']) and not any(x.get('k') == 'param' for x in ga) and ga not in insts:
+                    insts.append(ga)
+        if insts:
+            subs = [dict(zip(f['generics'], ga)) for ga in insts]
+        else:
+            subs = [{g: size_ty(sz) for g in f['generics']} for sz in ('Size4KiB', 'Size2MiB', 'Size1GiB')]
     bad = []
     seen = 0
     import itertools
@@ -250,7 +263,7 @@ def constructors(chk):
     # from_ptr goes through new
     o = r1(VA + '::from_ptr', [BV.sym(64, 'ptr') if False else __import__('x86abs.values', fromlist=['Ptr']).Ptr(addr=BV.sym(64, 'ptr'))], {'T': {'k': 'tuple', 'elems': []}})
     rets = [x for x in o if x.kind == 'ret']
-    chk.ob('constructor', 'VirtAddr::from_ptr re-validates through new (canonical on the returning path)', len(rets) == 1 and canonical(inner(rets[0].val).bits) and all(x.kind == 'panic' for x in o if x not in rets),
+    chk.ob('constructor', 'VirtAddr::from_ptr re-validates through new (canonical on the returning path)', bool(rets) and all(canonical(inner(x.val).bits) and same(BV(47, inner(x.val).bits[:47]), BV(47, sl('ptr', 0, 47))) for x in rets) and all(x.kind == 'panic' for x in o if x not in rets),
            'paths %r' % (o,), fn_site(I, VA + '::from_ptr'))
 
 
